@@ -25,19 +25,19 @@ CHECKS = {
    technique="runtime monitoring: environment capture at the runner boundary and in a real child, set-comparison oracle"),
  "C19": dict(
    category="exploration",
-   text="Runtime monitor: ~360 (quick) / ~8k (thorough) sequential and concurrent programs over Start/Client/Protocol/ReattachConfig/ID/Exited/Kill are run against one Client per program (scripted runner with a live in-process server, failing starts, real processes) under the race detector; oracles are launch counters, identity of returned addresses/clients, a porcupine linearizability check of each recorded call/return history against a sequential life-cycle model, and race reports attributed to go-plugin by accessing frame.",
+   text="Runtime monitor: ~360 (quick) / ~8k (thorough) sequential and concurrent programs over Start/Client/Protocol/ReattachConfig/ID/Exited/Kill are run against one Client per program (scripted runner with a live in-process server, failing starts, a start that succeeds with nothing listening, real processes) under the race detector; oracles are launch counters, identity of returned addresses/clients, a porcupine linearizability check of each recorded call/return history against a sequential life-cycle model, and race reports attributed to go-plugin by accessing frame.",
    design_ref="DESIGN.md section 3, C19",
    note="Trusts porcupine v1.3.0 and the Go race detector; the life-cycle model leaves ID/Exited unconstrained while a Kill may be in flight.",
    technique="runtime monitoring: recorded-history linearizability (porcupine) + launch counters + Go race detector"),
  "C05": dict(
    category="fault_enumeration",
-   text="Fault enumeration by runtime monitor: 20 named ways a Start can fail after launch x 5 launch methods (real process via Cmd, custom runner around a real process, the same with a Kill that honours its context without / with a grace period and the failure placed late in the start window, scripted in-process runner); the monitor reads the launched pid's /proc state at Start-return and while polling 5 s, counts runner Kill calls, times a later Kill, checks reaping and the temp socket directory.",
+   text="Fault enumeration by runtime monitor: 20 named ways a Start can fail after launch x 6 launch methods (incl. a custom runner whose stdout reader breaks) (real process via Cmd, custom runner around a real process, the same with a Kill that honours its context without / with a grace period and the failure placed late in the start window, scripted in-process runner); the monitor reads the launched pid's /proc state at Start-return and while polling 5 s, counts runner Kill calls, times a later Kill, checks reaping and the temp socket directory.",
    design_ref="DESIGN.md section 3, C05",
    note="'shortly after' = 5 s; causes are only those every reading of C01 rejects; thorough repeats each cause 10x with seeded output delays.",
    technique="runtime monitoring: /proc process-state monitor over enumerated start-failure causes"),
  "C06": dict(
    category="exploration",
-   text="Runtime monitor: rounds of 1-64 concurrently outstanding distinct ids on a real in-process net/rpc plugin connection (both directions, accept-first/dial-first, gaps inside the window, ids around the uint32 wrap, an Accept held (hook point) between pick-up and acknowledgement across the expiry instant of the parked dial, concurrent Dispense traffic incl. dispenses whose reserved id crosses the wrap, seeded jitter at the mux hook points, race detector on); each end records the unique token and PRNG payload it read; the offline oracle checks the dial(id)<->accept(id) bijection, byte-exact payloads, no failure inside the window, and that every Dispense reaches a distinct server object of the requested name.",
+   text="Runtime monitor: rounds of 1-64 concurrently outstanding distinct ids on a real in-process net/rpc plugin connection (both directions, accept-first/dial-first, gaps inside the window, ids around the uint32 wrap, an Accept held (hook point) between pick-up and acknowledgement across the expiry instant of the parked dial, concurrent Dispense traffic incl. dispenses whose reserved id crosses the wrap and dispenses of a plugin whose Server() fails, seeded jitter at the mux hook points, race detector on); each end records the unique token and PRNG payload it read; the offline oracle checks the dial(id)<->accept(id) bijection, byte-exact payloads, no failure inside the window, and that every Dispense reaches a distinct server object of the requested name.",
    design_ref="DESIGN.md section 3, C06",
    note="Both ends in one process via plugin.TestPluginRPCConn; gaps kept >= 1 s inside the 5 s window.",
    technique="runtime monitoring: unique-token routing oracle over recorded accept/dial events, hook-point jitter, race detector"),
@@ -49,19 +49,19 @@ CHECKS = {
    technique="runtime monitoring: id/nonce echo oracle over brokered gRPC connections, hook-point jitter, race detector"),
  "C08": dict(
    category="exploration",
-   text="Runtime monitor: sequences of 20-50 (quick) / up to 200 (thorough) brokered connections established one at a time on a multiplexed in-process gRPC pair; per-side id counters (the same number is live in both directions), accept-first and dial-first, second connections to still-open listeners, slow server factories, an establishment whose retrying dialler is accepted between its timed-out knock and gRPC's reconnect, listeners that are closed (once or twice) and whose id is accepted again at once; after every establishment the control connection is pinged, the main service called and every earlier brokered connection re-pinged; seeded delays at the hook points between knock-listener start, listener registration, knock acceptance and stream acceptance.",
+   text="Runtime monitor: sequences of 20-50 (quick) / up to 200 (thorough) brokered connections established one at a time on a multiplexed in-process gRPC pair; per-side id counters (the same number is live in both directions), accept-first and dial-first, second connections to still-open listeners, slow server factories, an establishment whose retrying dialler is accepted between its timed-out knock and gRPC's reconnect, listeners that are closed (once or twice) and whose id is accepted again at once, a dial with a 300 ms connect timeout accepted 1 s later; after every establishment the control connection is pinged, the main service called and every earlier brokered connection re-pinged; seeded delays at the hook points between knock-listener start, listener registration, knock acceptance and stream acceptance.",
    design_ref="DESIGN.md section 3, C08",
    note="Concurrent establishment is documented as unsupported and never generated.",
    technique="runtime monitoring: id/nonce echo + health re-check oracle over sequential multiplexed establishments, schedule perturbation at hook points"),
  "C09": dict(
    category="exploration",
-   text="Runtime monitor: histories of unmatched / duplicate / late / expiry-aligned broker operations (the expiry alignment is produced deterministically by blocking the expiry goroutine at a hook point) on MuxBroker, GRPCBroker and multiplexed GRPCBroker, each followed by matched pairs on fresh ids in both directions and a close; oracle: every call returns (nominal 5 s, hang threshold 40 s), unmatched calls fail, fresh pairs succeed, no goroutine with broker frames remains after all clients are closed. The defects it found (D5, D6 stale knock, D19 leaked knock listener) are repaired; known_findings.json holds only fixed entries.",
+   text="Runtime monitor: histories of unmatched / duplicate / late / expiry-aligned broker operations (the expiry alignment is produced deterministically by blocking the expiry goroutine at a hook point) on MuxBroker, GRPCBroker and multiplexed GRPCBroker, each followed by matched pairs on fresh ids in both directions and a close; oracle: every call returns (nominal 5 s, hang threshold 40 s), unmatched calls fail, fresh pairs succeed, a final close racing with listener announcements lets every call return, no goroutine with broker frames remains after all clients are closed. The defects it found (D5, D6 stale knock, D19 leaked knock listener) are repaired; known_findings.json holds only fixed entries.",
    design_ref="DESIGN.md section 3, C09 and section 4 (D5, D6)",
    note="Bounded-progress reading of liveness; thresholds are generous so a loaded machine cannot manufacture alarms.",
    technique="runtime monitoring: bounded-progress oracle over fault histories with hook-controlled line-up, goroutine-dump leak monitor"),
  "C13": dict(
    category="exploration",
-   text="Runtime monitor: ~620 (quick) / ~6k (thorough) (file, hash function, checksum) triples incl. every single-bit flip and every proper prefix of the digest; the target is a script that writes a launch marker as its first action; the oracle computes the digest independently and requires launched <=> checksum == H(file) and the corresponding error; plus histories of 2-4 launches of one path through one shared SecureConfig value with the file atomically replaced in between, and command paths through directory symlinks with '..' and file symlinks (hashed file must be the executed file).",
+   text="Runtime monitor: ~620 (quick) / ~6k (thorough) (file, hash function, checksum) triples incl. every single-bit flip and every proper prefix of the digest; the target is a script that writes a launch marker as its first action; the oracle computes the digest independently and requires launched <=> checksum == H(file) and the corresponding error; plus histories of 2-4 launches of one path through one shared SecureConfig value with the file atomically replaced in between, and command paths through directory symlinks with '..' and file symlinks (hashed file must be the executed file), and RunnerFunc clients with a SecureConfig (nothing may be launched).",
    design_ref="DESIGN.md section 3, C13",
    note="Digest computed with Go's crypto packages in the driver; launch observed through the marker file and exec.Cmd.Process.",
    technique="runtime monitoring: launch-marker oracle against an independently computed digest, exhaustive single-bit/prefix sub-spaces"),
@@ -97,13 +97,13 @@ CHECKS = {
    technique="runtime monitoring: intruder/impostor probes with positive controls against real AutoMTLS plugin processes"),
  "C16": dict(
    category="exploration",
-   text="Runtime monitor in which the harness is the host: the plugin binary is executed directly over the cookie x configuration product and over 13 shapes of the host's version list, also in processes that served once in test mode before; raw stdout/stderr/exit status, the private sandbox listing, an immediate connect to the announced address, and strace's bind/listen/write order decide the property (no listener and status 1 without the cookie; exactly one well-formed line, nothing else on fd 1, listener ready before the line).",
+   text="Runtime monitor in which the harness is the host: the plugin binary is executed directly over the cookie x configuration product and over 13 shapes of the host's version list, also in processes that served once in test mode before and with socket directories whose names contain special characters; raw stdout/stderr/exit status, the private sandbox listing, an immediate connect to the announced address, and strace's bind/listen/write order decide the property (no listener and status 1 without the cookie; exactly one well-formed line, nothing else on fd 1, listener ready before the line).",
    design_ref="DESIGN.md section 3, C16",
    note="Needs a working strace -f for the syscall-order and transient-listener observations (self-tested at run start; recorded in the evidence as strace_available).",
    technique="runtime monitoring: external process/syscall monitor (strace) plus raw stdio and file-system observation"),
  "C14": dict(
    category="exploration",
-   text="Runtime monitor over the configuration cross product (576 cells + option conflicts + plugins that ignore PLUGIN_CLIENT_CERT + hosts that set AutoMTLS and a static TLSConfig together + raw-line plugins; quick = seeded sample with every expectation kind, thorough = exhaustive): each cell launches a real plugin subprocess and records start error class, protocol in use, Ping, identity-tagged call, brokered callbacks in both directions, an 8 MiB response, Dispense of an unknown name, process state after refusals, hangs and panics; a classification table written from the statement (MUST_WORK / MUST_FAIL_AT_START(kind) / MUST_NOT_WORK / EITHER_BUT_CLEAN) is the oracle.",
+   text="Runtime monitor over the configuration cross product (576 cells + option conflicts + plugins that ignore PLUGIN_CLIENT_CERT + hosts that set AutoMTLS and a static TLSConfig together + raw-line plugins; quick = seeded sample with every expectation kind, thorough = exhaustive): each cell launches a real plugin subprocess and records start error class, protocol in use, Ping, identity-tagged call, brokered callbacks in both directions, an 8 MiB response, 5 MiB responses on brokered connections, Dispense of an unknown name, process state after refusals, hangs and panics; a classification table written from the statement (MUST_WORK / MUST_FAIL_AT_START(kind) / MUST_NOT_WORK / EITHER_BUT_CLEAN) is the oracle.",
    design_ref="DESIGN.md section 3, C14",
    note="Documented-unsupported combinations (AutoMTLS+TLSProvider, AutoMTLS+reattach) are only required to be clean; static TLS is configured so that both sides can act as TLS server and client (brokered connections need both roles).",
    technique="runtime monitoring: classification-table oracle over the real configuration cross product (exhaustive in thorough)"),
@@ -115,13 +115,13 @@ CHECKS = {
    technique="runtime monitoring: reference state machine + porcupine register linearizability over recorded histories"),
  "C18": dict(
    category="exploration",
-   text="Runtime monitor: seeded histories of dispenses / brokered connections in both directions / stdio / a brokered listener the plugin keeps open, followed by Kill (optionally racing with listener announcements), over protocol x TLS x launch method, real subprocesses with private sandboxes on both sides; after a graceful exit (cleanup marker present) the monitor lists both sandboxes for socket files and plugin-dir* directories and compares a goroutine dump of the host (filtered on go-plugin frames) with the count before the case, polling up to 10 s.",
+   text="Runtime monitor: seeded histories of dispenses / brokered connections in both directions / stdio / a brokered listener the plugin keeps open, followed by Kill (optionally racing with listener announcements), plus in-process test-mode servers cancelled after no / one host used them, over protocol x TLS x launch method, real subprocesses with private sandboxes on both sides; after a graceful exit (cleanup marker present) the monitor lists both sandboxes for socket files and plugin-dir* directories and compares a goroutine dump of the host (filtered on go-plugin frames) with the count before the case, polling up to 10 s.",
    design_ref="DESIGN.md section 3, C18",
    note="One case at a time per host process so that goroutines are attributable; only graceful exits are judged.",
    technique="runtime monitoring: file-system listing + goroutine-dump leak monitor after graceful shutdown"),
  "C20": dict(
    category="exploration",
-   text="Sanitizer + runtime monitor: concurrent rounds (4/16/64 goroutines) over in-process MuxBroker / GRPCBroker / multiplexed pairs and over one real Client with a race-built plugin process serving several dispensed implementations and brokered connections; a third of the rounds race Close / server Stop / concurrent Kill with in-flight operations; seeded jitter at every hook point. The Go race detector runs in both processes (reports attributed to go-plugin by accessing frame and de-duplicated by function pair), host deaths, recovered panics and plugin-side panic lines are violations, and the multiset of NextId results must be duplicate-free.",
+   text="Sanitizer + runtime monitor: concurrent rounds (4/16/64 goroutines) over in-process MuxBroker / GRPCBroker / multiplexed pairs and over one real Client with a race-built plugin process serving several dispensed implementations and brokered connections; a third of the rounds race Close / server Stop / concurrent Kill with in-flight operations; managed clients are created while CleanupClients runs; seeded jitter at every hook point. The Go race detector runs in both processes (reports attributed to go-plugin by accessing frame and de-duplicated by function pair), host deaths, recovered panics and plugin-side panic lines are violations, and the multiset of NextId results must be duplicate-free.",
    design_ref="DESIGN.md section 3, C20",
    note="A clean race-detector run covers only the accesses and schedules this workload produced (bounded per-location history).",
    technique="sanitizer: Go race detector on host and plugin under a concurrent stress workload, plus panic and NextId-uniqueness monitors"),
